@@ -190,14 +190,27 @@ def invalidate_attrs(obj: Any, attr: str, invalidation_map: Dict[str, Set[str]] 
     if not invalidation_map:
         return
 
-    # Handle invalidation
-    for invalidatee in invalidation_map.get(attr, set()) | invalidation_map.get(
-        "*", set()
-    ):
-        if invalidatee == attr:
-            continue
+    # Collect everything that depends on `attr`, directly or through other
+    # derived values. A dependant is followed whether or not it currently
+    # holds a value: an uncached property in the middle of a chain has nothing
+    # to delete, but what is cached downstream of it is stale all the same.
+    invalidated = []
+    seen = {attr}
+    pending = [attr]
+    while pending:
+        current = pending.pop()
+        for invalidatee in invalidation_map.get(current, set()) | invalidation_map.get(
+            "*", set()
+        ):
+            if invalidatee not in seen:
+                seen.add(invalidatee)
+                invalidated.append(invalidatee)
+                pending.append(invalidatee)
+
+    # Handle invalidation (the closure is complete, so no further cascading)
+    for invalidatee in invalidated:
         try:
-            delattr(obj, invalidatee)
+            obj.__delattr__(invalidatee, skip_invalidation=True)
         except AttributeError:
             pass
 
